@@ -75,3 +75,17 @@ VARIANTS = [
     dict(id="c13-neutral-strictness", prop="C13", file=SH, expect=None,
          old="        return value >= competing_values[-(promotable_idx + 1)]\n", new="        return value > competing_values[-(promotable_idx + 1)]\n"),
 ]
+
+NS3 = "optuna/samplers/_nsgaiii/_elite_population_selection_strategy.py"
+VARIANTS += [
+    dict(id="c13-f7-shape-reintroduced", prop="C13", file=NS3, expect="R13.6",
+         old="                    _filter_inf(elite_population + population) * signs\n", new="                    _filter_inf(elite_population + population)\n"),
+    dict(id="c13-f8-shape-reintroduced", prop="C13", file=NS, expect="R13",
+         old="        sign = 1.0 if signs is None else signs[i]\n        population.sort(key=lambda x: sign * x.values[i])\n", new="        sign = 1.0\n        population.sort(key=lambda x: x.values[i])\n"),
+    dict(id="c13-gp-direction-applied-twice", prop="C13", file=GP, expect="R13.3",
+         old="            max_Y = -np.inf if is_all_infeasible else np.max(standardized_score_vals[is_feasible])\n",
+         new="            if is_all_infeasible:\n                max_Y = -np.inf\n            elif study.direction == StudyDirection.MINIMIZE:\n                max_Y = np.min(standardized_score_vals[is_feasible])\n            else:\n                max_Y = np.max(standardized_score_vals[is_feasible])\n"),
+    dict(id="c13-wilcoxon-comparison-hoisted", prop="C13", file=WI, expect="R13.5",
+         old="        if study.direction == StudyDirection.MAXIMIZE:\n            alt = \"less\"\n            average_is_best = sum(best_step_values) / len(best_step_values) <= sum(\n                step_values\n            ) / len(step_values)\n        else:\n            alt = \"greater\"\n            average_is_best = sum(best_step_values) / len(best_step_values) >= sum(\n                step_values\n            ) / len(step_values)\n",
+         new="        best_average = sum(best_step_values) / len(best_step_values)\n        average = sum(step_values) / len(step_values)\n        alt = \"less\" if study.direction == StudyDirection.MAXIMIZE else \"greater\"\n        average_is_best = best_average >= average\n"),
+]
